@@ -178,6 +178,10 @@ type spkUniverse struct {
 	NoBurst bool
 	Ifs     []string
 	AddrUniverse []string
+	// MLDisabled: the speakers run without memberlist (every known Node counts as having a live speaker).
+	// LateNodes: nodes whose Node object does not exist when the speaker starts; event "mknode" creates it.
+	MLDisabled bool
+	LateNodes  map[string]bool
 }
 
 type nopSvcClient struct{}
@@ -189,6 +193,9 @@ func (nopSvcClient) Errorf(svc *v1.Service, desc, msg string, args ...interface{
 type spkSList struct{ s *spkSys }
 
 func (l spkSList) UsableSpeakers() speakerlist.SpeakerListInfo {
+	if l.s.u.MLDisabled {
+		return speakerlist.SpeakerListInfo{Disabled: true}
+	}
 	nodes := map[string]bool{spkMe: true}
 	if l.s.otherAlive {
 		nodes["other"] = true
@@ -228,13 +235,17 @@ type spkSys struct {
 func newSpkSys(u *spkUniverse) *spkSys {
 	s := &spkSys{u: u, store: verifenv.NewStore(), otherAlive: true, nodeVar: map[string]int{}, errKeys: map[string]bool{}}
 	for n := range u.NodeVars {
-		s.putNode(n, 0)
+		if !u.LateNodes[n] {
+			s.putNode(n, 0)
+		}
 	}
 	s.putConfig(u.InitCfg)
 	s.start()
 	s.cfgQ.Add("config")
 	for n := range u.NodeVars {
-		s.nodeQ.Add(n)
+		if !u.LateNodes[n] {
+			s.nodeQ.Add(n)
+		}
 	}
 	pre := u.Rich
 	if pre == nil {
@@ -657,6 +668,11 @@ func (s *spkSys) Enabled() []verifrt.Event {
 	}
 	sort.Strings(nodeNames)
 	for ni, n := range nodeNames {
+		if s.store.Peek("Node", "", n) == nil {
+			// the Node object does not exist yet: the only event is its creation
+			evs = append(evs, verifrt.Event{Kind: "mknode", A: ni, S: n, User: true})
+			continue
+		}
 		for vi := range s.u.NodeVars[n] {
 			if vi != s.nodeVar[n] {
 				evs = append(evs, verifrt.Event{Kind: "node", A: ni, B: vi, S: n, User: true})
@@ -736,6 +752,11 @@ func (s *spkSys) Apply(ev verifrt.Event) {
 		if fmt.Sprint(old.Labels) != fmt.Sprint(nw.Labels) {
 			s.cfgQ.Add("config")
 		}
+	case "mknode":
+		// a Node object is created: the node reconciler and the configuration reconciler both watch node creations
+		s.putNode(ev.S, 0)
+		s.nodeQ.Add(ev.S)
+		s.cfgQ.Add("config")
 	case "member":
 		s.otherAlive = !s.otherAlive
 		s.svcQ.Add("reload") // the speaker list forces a sync on membership changes
@@ -833,7 +854,9 @@ func (s *spkSys) freshSys() (*spkSys, bool) {
 	f.start()
 	f.cfgQ.Add("config")
 	for n := range s.u.NodeVars {
-		f.nodeQ.Add(n)
+		if s.store.Peek("Node", "", n) != nil {
+			f.nodeQ.Add(n)
+		}
 	}
 	for _, k := range s.store.Keys("Service") {
 		f.svcQ.Add(k)
